@@ -68,6 +68,15 @@ Definition s_reply (a : answer) (ss : sess) : sess := fire false ss (step false 
 
 Definition s_abort (ss : sess) : sess := fire true ss (abort (ag ss)).
 
+(* A reply that arrives for a request of kind [k] that was in flight when Abort() was called (the target
+   cannot cancel it).  All four callbacks start with "if (m_uid_ranges.empty()) return;" (fixes/03). *)
+Definition late (k : pend) (a : answer) (s : st) : st :=
+  match stack s with
+  | [] => s
+  | _ => step false (set_pending s k) a
+  end.
+Definition s_late (k : pend) (a : answer) (ss : sess) : sess := fire false ss (late k a (ag ss)).
+
 (* ~DiscoveryAgent(): calls Abort() (a pending callback runs once with (false, {})); the agent is gone,
    a new one is constructed afterwards.  The dying agent's callback does not start another run. *)
 Definition s_destroy (ss : sess) : sess :=
